@@ -93,7 +93,8 @@ class Increments(Machine):
                        "gmrf_subtraction", "gmrf_concatenation", "gmrf_bias1", "rejected_increment",
                        "graph_edgeless", "graph_chain", "graph_cycle", "graph_tree", "graph_directed", "graph_directed_any",
                        "graph_tree_high_root",
-                       "object_backed", "malformed_increment_refused", "active_count_lowered_between_increments")
+                       "object_backed", "malformed_increment_refused", "active_count_lowered_between_increments",
+                       "rank_deficient_with_more_samples_than_features")
 
     @classmethod
     def _cfg(cls, rng):
@@ -104,6 +105,9 @@ class Increments(Machine):
         if fam.startswith("pca"):
             cfg.update(centred=rng.random() < 0.65, d=rng.randint(2, 10) if fam == "pca_vec" else 2 * rng.randint(2, 5))
             cfg["n0"] = rng.randint(2, 14)
+            if rng.random() < 0.2:
+                # a rank-deficient beginning: for the first `flat` samples one feature is an exact multiple of another
+                cfg["flat"] = cfg["n0"] + rng.randint(0, 6)
         else:
             V = rng.randint(2, 5)
             k = rng.randint(2, 3) if fam == "gmrf_vec" else 2
@@ -185,6 +189,12 @@ class Increments(Machine):
             else:
                 ctx.probe("pca_uncentred")
             X = X * 10.0 ** cfg.get("scale_exp", 0)
+            if cfg.get("flat") and d >= 2:
+                i, j = (int(v) for v in g.permutation(d)[:2])
+                X[:cfg["flat"], j] = 2.0 * X[:cfg["flat"], i]      # exact in floating point
+                ctx.probe("rank_deficient_beginning")
+                if cfg["n0"] > d:
+                    ctx.probe("rank_deficient_with_more_samples_than_features")
             self.X, self.d = X, d
             self.tmpl = PointCloud(np.zeros((d // 2, 2))) if fam == "pca_obj" else None
             if self.tmpl is not None:
